@@ -11,6 +11,7 @@ import (
 	"os"
 	"os/exec"
 	"path/filepath"
+	"runtime"
 	"sort"
 	"strconv"
 	"strings"
@@ -54,27 +55,27 @@ type FoundJSON struct {
 
 // WorkerOut is the aggregate a worker process writes.
 type WorkerOut struct {
-	Runs      int               `json:"runs"`
-	Events    int               `json:"events"`
-	Calls     int               `json:"calls"`
-	Outcome   map[string]int    `json:"outcome"`
-	Faults    map[string]int    `json:"faults"`
-	Probes    map[string]int    `json:"probes"`
-	DepCalls  []int             `json:"dep_calls"`
-	States    []uint64          `json:"states"`
-	Sigs      []uint64          `json:"sigs"`
-	Distinct  int               `json:"codec_distinct"`
-	Violating []RunResult       `json:"violating,omitempty"`
-	Foreign   map[string]int    `json:"foreign,omitempty"`
-	ForeignSamples []string     `json:"foreign_samples,omitempty"`
-	SampleRun *SampleRun        `json:"sample_run,omitempty"`
-	RunHashes map[string]uint64 `json:"run_hashes,omitempty"`
-	Samples   []string          `json:"samples,omitempty"`
-	EpochEvs  int               `json:"epoch_events"`
-	SchedAcc  int               `json:"sched_accepted"`
-	SchedRej  int               `json:"sched_rejected"`
-	Parser    int               `json:"parser_checks"`
-	Err       string            `json:"err,omitempty"`
+	Runs           int               `json:"runs"`
+	Events         int               `json:"events"`
+	Calls          int               `json:"calls"`
+	Outcome        map[string]int    `json:"outcome"`
+	Faults         map[string]int    `json:"faults"`
+	Probes         map[string]int    `json:"probes"`
+	DepCalls       []int             `json:"dep_calls"`
+	States         []uint64          `json:"states"`
+	Sigs           []uint64          `json:"sigs"`
+	Distinct       int               `json:"codec_distinct"`
+	Violating      []RunResult       `json:"violating,omitempty"`
+	Foreign        map[string]int    `json:"foreign,omitempty"`
+	ForeignSamples []string          `json:"foreign_samples,omitempty"`
+	SampleRun      *SampleRun        `json:"sample_run,omitempty"`
+	RunHashes      map[string]uint64 `json:"run_hashes,omitempty"`
+	Samples        []string          `json:"samples,omitempty"`
+	EpochEvs       int               `json:"epoch_events"`
+	SchedAcc       int               `json:"sched_accepted"`
+	SchedRej       int               `json:"sched_rejected"`
+	Parser         int               `json:"parser_checks"`
+	Err            string            `json:"err,omitempty"`
 }
 
 func drawConfig(r *rand.Rand, ps *PropSpec) world.Config {
@@ -115,6 +116,9 @@ func drawConfig(r *rand.Rand, ps *PropSpec) world.Config {
 	default:
 		cfg.NumDNS = 2
 	}
+	cfg.OddUser = r.Intn(6) == 0
+	cfg.HostReusesDNSMap = r.Intn(5) == 0
+	cfg.LongIDs = r.Intn(12) == 0
 	return cfg
 }
 
@@ -316,6 +320,9 @@ type ReplayFile struct {
 	// state in the code under test survives between executions): replay re-runs seeds From..Seed
 	Kind string `json:"kind,omitempty"`
 	From int64  `json:"from,omitempty"`
+	// Arch: set when the violation was found on a build for another architecture than amd64; the
+	// replay must run on a build for that architecture (./check dispatches)
+	Arch string `json:"arch,omitempty"`
 }
 
 func worker(ps *PropSpec, from, to int64, outPath string, keepHashes bool, maxViol int) {
@@ -459,7 +466,13 @@ func has(l []string, x string) bool {
 	return false
 }
 
+// archStage is set in the second stage of a check: the same histories on a build whose int, uint
+// and pointers are 32 bits wide (GOARCH=386). It runs a fraction of the runs, writes replay files that
+// name their architecture and adds its figures to the evidence file of the first stage.
+var archStage string
+
 func main() {
+	stage := flag.String("stage", "", "internal: \"arch\" = second stage on another build architecture")
 	prop := flag.String("prop", "", "property id")
 	tier := flag.String("tier", "quick", "quick|thorough")
 	seed := flag.Int64("seed", 1, "base seed")
@@ -496,6 +509,7 @@ func main() {
 	if *replay != "" {
 		os.Exit(doReplay(*replay))
 	}
+	archStage = *stage
 	stopProp = *prop
 	if stopProp == "ALL" {
 		stopProp = ""
@@ -540,6 +554,15 @@ func main() {
 
 func doReplay(path string) int {
 	b, err := os.ReadFile(path)
+	if err == nil {
+		var probe struct {
+			Arch string `json:"arch"`
+		}
+		if json.Unmarshal(b, &probe) == nil && probe.Arch != "" && probe.Arch != runtime.GOARCH {
+			fmt.Fprintf(os.Stderr, "this replay file was recorded on a %s build; replay it with ./check <property> --replay <file>, which picks that build\n", probe.Arch)
+			return 2
+		}
+	}
 	if err != nil {
 		fmt.Fprintln(os.Stderr, "cannot read replay file:", err)
 		return 2
@@ -644,6 +667,13 @@ func parent(ps *PropSpec, tier string, seed int64, runs, workers int, verifDir s
 			runs = ps.ThorN
 		}
 	}
+	if archStage != "" {
+		if tier == "thorough" {
+			runs /= 20
+		} else {
+			runs /= 8
+		}
+	}
 	if workers > runs {
 		workers = runs
 	}
@@ -654,6 +684,9 @@ func parent(ps *PropSpec, tier string, seed int64, runs, workers int, verifDir s
 		return 2
 	}
 	defer os.RemoveAll(tmp)
+	if archStage != "" {
+		fmt.Printf("second stage: the same histories on a %s build (32-bit int, uint, pointers): ", runtime.GOARCH)
+	}
 	fmt.Printf("VERIF_SEED=%d property=%s tier=%s runs=%d workers=%d\n", seed, ps.ID, tier, runs, workers)
 	per := (runs + workers - 1) / workers
 	type job struct {
@@ -825,10 +858,10 @@ func parent(ps *PropSpec, tier string, seed int64, runs, workers int, verifDir s
 			if got == nil {
 				// not reproducible from a fresh world: does it reproduce with the worker's process
 				// history (hidden state in the code under test carried from one execution to the next)?
-				rf := ReplayFile{Property: ps.ID, Seed: rr.Seed, Kind: "seed-range", From: rr.From, Config: rr.Cfg,
+				rf := ReplayFile{Property: ps.ID, Seed: rr.Seed, Kind: "seed-range", From: rr.From, Config: rr.Cfg, Arch: archOf(),
 					Violation: FoundJSON{Props: f.Props, Clause: f.Clause, Detail: f.Detail + " [only with the process history of seeds " + fmt.Sprint(rr.From) + ".." + fmt.Sprint(rr.Seed) + ": state hidden in the code under test survives between executions]", Event: f.Event}}
 				_ = os.MkdirAll(filepath.Join(verifDir, "replays"), 0o755)
-				path := filepath.Join(verifDir, "replays", fmt.Sprintf("%s-seeds%d-%d.json", ps.ID, rr.From, rr.Seed))
+				path := filepath.Join(verifDir, "replays", fmt.Sprintf("%s-seeds%d-%d%s.json", ps.ID, rr.From, rr.Seed, archSuffix()))
 				b, _ := json.MarshalIndent(rf, "", " ")
 				_ = os.WriteFile(path, b, 0o644)
 				c := exec.Command(self, "-replay", path)
@@ -844,10 +877,10 @@ func parent(ps *PropSpec, tier string, seed int64, runs, workers int, verifDir s
 				return 2
 			}
 		}
-		rf := ReplayFile{Property: ps.ID, Seed: rr.Seed, Config: rr.Cfg, Events: small, OrigLen: len(rr.Trace),
+		rf := ReplayFile{Property: ps.ID, Seed: rr.Seed, Config: rr.Cfg, Events: small, OrigLen: len(rr.Trace), Arch: archOf(),
 			Violation: FoundJSON{Props: got.V.Props, Clause: got.V.Clause, Detail: got.V.Detail, Event: got.Event}}
 		_ = os.MkdirAll(filepath.Join(verifDir, "replays"), 0o755)
-		path := filepath.Join(verifDir, "replays", fmt.Sprintf("%s-seed%d.json", ps.ID, rr.Seed))
+		path := filepath.Join(verifDir, "replays", fmt.Sprintf("%s-seed%d%s.json", ps.ID, rr.Seed, archSuffix()))
 		b, _ := json.MarshalIndent(rf, "", " ")
 		_ = os.WriteFile(path, b, 0o644)
 		// replay in a fresh process before reporting
@@ -893,6 +926,20 @@ func parent(ps *PropSpec, tier string, seed int64, runs, workers int, verifDir s
 		return 2
 	}
 	return exit
+}
+
+func archOf() string {
+	if runtime.GOARCH == "amd64" {
+		return ""
+	}
+	return runtime.GOARCH
+}
+
+func archSuffix() string {
+	if a := archOf(); a != "" {
+		return "-" + a
+	}
+	return ""
 }
 
 func firstLine(s string) string {
@@ -1042,9 +1089,40 @@ func writeEvidence(ps *PropSpec, tier string, seed int64, agg *WorkerOut, nstate
 		"wall_s":      wall,
 		"violations":  nviol,
 	}
-	b, _ := json.MarshalIndent(ev, "", " ")
 	_ = os.MkdirAll(filepath.Join(verifDir, "evidence"), 0o755)
-	_ = os.WriteFile(filepath.Join(verifDir, "evidence", ps.ID+".json"), b, 0o644)
+	path := filepath.Join(verifDir, "evidence", ps.ID+".json")
+	if archStage != "" {
+		// second stage: add to what the first stage wrote
+		var first map[string]interface{}
+		if old, err := os.ReadFile(path); err == nil && json.Unmarshal(old, &first) == nil {
+			if c, ok := first["coverage"].(map[string]interface{}); ok {
+				c["second_stage_32bit_build"] = map[string]interface{}{
+					"what":             "the same seeded histories (a prefix of the first stage's seeds) executed by a " + runtime.GOARCH + " build of checker and library: int, uint and pointers are 32 bits wide, so arithmetic that silently depends on the word size diverges from the oracle (which computes in uint64 and big integers)",
+					"simulated_runs":   agg.Runs,
+					"simulated_events": agg.Events,
+					"calls_judged":     agg.Calls,
+					"distinct_states":  nstates,
+					"faults_fired":     agg.Faults,
+					"wall_s":           wall,
+					"violations":       nviol,
+				}
+				if w0, ok := first["wall_s"].(float64); ok {
+					first["wall_s"] = w0 + wall
+				}
+				if v0, ok := first["violations"].(float64); ok {
+					first["violations"] = int(v0) + nviol
+				}
+				if b, err := json.MarshalIndent(first, "", " "); err == nil {
+					_ = os.WriteFile(path, b, 0o644)
+					return
+				}
+			}
+		}
+		fmt.Fprintln(os.Stderr, "HARNESS TROUBLE: the first stage left no evidence file to extend")
+		os.Exit(2)
+	}
+	b, _ := json.MarshalIndent(ev, "", " ")
+	_ = os.WriteFile(path, b, 0o644)
 }
 
 var _ = spec.P
